@@ -4,11 +4,11 @@ package main
 // contents of objects resolved from the effect log, and acceleration of loops whose state advances affinely.
 
 import (
-	"sort"
 	"fmt"
 	"go/token"
 	"go/types"
 	"math/big"
+	"sort"
 	"strings"
 
 	"golang.org/x/tools/go/ssa"
